@@ -124,4 +124,43 @@ PROPS = {
                      "protobuf codecs / serialization.Serializer / github.com/keilerkonzept/visit are modelled (universal descent into exported fields), validated by the correspondence"],
         timeout={"quick": 900, "thorough": 3600},
     ),
+    "C13": dict(
+        engine="TestC13",
+        extract="typegraph",
+        lean_modules=["S2S.Props.C13"],
+        required_theorems=["C13_unmapped_untouched", "C13_single_application", "C13_bimap_rejects_exactly_non_injective", "C13_roundtrip", "C13_direction_roundtrip", "C13_only_namespace_fields_assigned"],
+        rule="NewStaticBiMap on EVERY pair list up to length 3 (quick) / 4 (thorough) over a 4-name alphabet (all non-injective lists included) + start-up of real "
+             "cluster connections with (non-)injective mappings; exact-match lookups and round trips through the real translator for names incl. prefixes, "
+             "substrings, case variants, empty, chains a->b,b->c and swaps; direction observed end to end through a running proxy pair on both servers with and "
+             "without the bypass header (name seen by the backend / by the caller); random fully-populated messages of every root type translated and translated "
+             "back with the inverse (must be identical). 'touches nothing else' is additionally monitored in C12's engine against the independent reference. "
+             "Non-trivial = non-injective list, or a lookup/direction case; distinct by op.",
+        assumptions=["a name that is an unmapped image of the mapping (in ran m but not dom m) cannot round-trip: excluded explicitly by the theorem's hypothesis and exercised (reported) by the engine"],
+        timeout={"quick": 900, "thorough": 3600},
+    ),
+    "C14": dict(
+        engine="TestC14",
+        extract="typegraph",
+        lean_modules=["S2S.Props.C14"],
+        required_theorems=["C14_keys_renamed_values_untouched", "C14_no_key_lost", "C14_workflow_service_excluded", "C14_every_container_found"],
+        rule="every structural path to a search-attributes container (typed SearchAttributes and bare map<string,Payload>) in AdminService messages incl. inside "
+             "history-event blobs, built as real messages with random key sets that do not collide with mapping targets, through the real "
+             "NewSearchAttributeTranslator: keys compared with the model, payload bytes checked untouched, whole message compared with the reference; the method "
+             "filter for all 154 methods; random AdminService messages vs the reference. Distinct by path.",
+        assumptions=["single-namespace mapping (the code's documented limitation)", "fields named SearchAttributes of other types (AddSearchAttributesRequest, RemoveSearchAttributesRequest) make the visitor return an error that is only logged: counted, outside the property"],
+        timeout={"quick": 900, "thorough": 3600},
+    ),
+    "C16": dict(
+        engine="TestC16",
+        extract="typegraph",
+        lean_modules=["S2S.Props.C16"],
+        required_theorems=["C16_forbidden_namespace_denied", "C16_allowed_namespaces_pass", "C16_list_namespaces_filtered", "C16_every_namespace_field_is_seen"],
+        rule="for every root type of both services and every kind of structural path to a namespace field (incl. inside history blobs), real messages with an "
+             "allowed / forbidden / empty name at that path, and combinations (allowed on one path + forbidden on another), through the real "
+             "AccessControlInterceptor.Intercept with a recording handler: decision compared with the model given every namespace value of the message "
+             "(descriptor oracle) and with the path-level visitor model; ListNamespaces filter through the real workflow-service proxy server; end-to-end cases "
+             "through a running proxy with translation + policy, with and without the bypass header. Distinct by (path, name).",
+        assumptions=["the code refuses empty names under a non-empty allow-list (stricter than required; modelled as is); an empty Link.WorkflowEvent.namespace inside an otherwise skippable event is not offered to the matcher - not compared, outside the property"],
+        timeout={"quick": 900, "thorough": 3600},
+    ),
 }
